@@ -91,7 +91,7 @@ def replay_native(meta):
     box = [3.0, 0, 0, 0, 4.0, 0, 0, 0, 5.0] if meta['boxkind'] == 'orthorhombic' else [3.0, 0.5, 0.25, 0, 4.0, 0.75, 0, 0, 5.0]
     pos = [0.125 * (i + 1) for i in range(3 * n)]; vel = [0.25 * (i + 1) for i in range(3 * n)]; frc = [0.5 * (i + 1) for i in range(3 * n)]
     if meta.get('full'):       # values that fill the 8-character columns: -100.125 (%8.3f), 100.0625 / -10.0625 (%8.4f)
-        pos = [-100.125 - i for i in range(3 * n)]; vel = [100.0625 + i if i % 2 == 0 else -10.0625 - i for i in range(3 * n)]; box = [3000.0, 0, 0, 0, 4000.0, 0, 0, 0, 5000.0]
+        pos = [-100.125 - i for i in range(3 * n)]; vel = [100.0625 + i if i % 2 == 0 else -10.0625 - i for i in range(3 * n)]
     fl2 = meta.get('flags2'); fl2 = flags if fl2 is None else fl2
     args = [str(x) for x in (fmt, n, flags, 5, meta['nframes'], nread, fl2)] + [repr(x) for x in box + pos + vel + frc]
     rc, so, se = common.run_native(binp, args=args)
